@@ -40,6 +40,9 @@ fn battery<Ty: EdgeType, Null: Nullable<Wrapped = u32>, Ix: IndexType>(
         if ns != es { v.push(format!("neighbors-mismatch {}", a)); }
         if let Some(f) = incoming { let mut i = vec![a]; i.extend(f(g, a)); v.push(line("in", &i)); }
     }
+    // the visit traits answer like the inherent methods
+    if petgraph::visit::NodeCount::node_count(g) != g.node_count() || petgraph::visit::EdgeCount::edge_count(g) != g.edge_count()
+        || petgraph::visit::IntoNodeIdentifiers::node_identifiers(g).count() != g.node_count() { v.push("visit-trait-count-mismatch".into()); }
     v
 }
 
